@@ -243,6 +243,28 @@ class C14(Prop):
                     evs.append(QST)
             evs += [POLL] * rng.randint(0, 4)
             out.append(mk_case(kind, rng.choice(("local", "threads")), evs, {"kind": "random-" + kind}))
+        # wide histories: bursts of 20..150 items queued before the consumer polls, a lagging consumer, then the
+        # terminal (batch sizes, yield budgets and queue capacities of an implementation lie beyond the short scripts)
+        for _ in range(n // 2):
+            kind = rng.choice(KINDS)
+            evs = []
+            k = 0
+            for _ in range(rng.randint(1, 4)):
+                if rng.random() < 0.4:
+                    evs += [POLL] * rng.randint(1, 3)
+                for _ in range(rng.choice([20, 33, 40, 65, 130, 150])):
+                    k += 1
+                    evs.append(emit(N(k % 7)))
+                evs += [POLL] * rng.choice([0, 1, 5, 40])
+            r = rng.random()
+            if r < 0.45:
+                evs.append(emit("c"))
+            elif r < 0.9:
+                evs.append(emit(E(3)))
+            evs += [POLL] * (k + 3)
+            if kind == "status":
+                evs.append(QST)
+            out.append(mk_case(kind, rng.choice(("local", "threads")), evs, {"kind": "wide-" + kind}))
         # interleave the kinds (the runner shrinks only the first few hundred failures)
         by = {}
         for c in out:
